@@ -347,6 +347,16 @@ _pre_grid = st.sampled_from(['spacing', 'spacing', 'spacing', 'length', 'same', 
 def solve_cases(draw):
     c = draw(pn_cases(nmax=21))
     c['prof']['N'] = draw(st.integers(5, 21))
+    if c['prof']['xint']:
+        # a whole-angstrom grid for the solve keeps the spacing at b/4 (coarser grids let the line searches run away):
+        # 4 angstrom Burgers vector, 1 angstrom spacing
+        c['prof']['xint']['dx'] = 1
+        if c['sys']['gamma']['a1len'] == c['sys']['b']:
+            c['sys']['gamma']['a1len'] = 4.0
+        c['sys']['b'] = 4.0
+        # (and a central-difference elastic term is blind to a saw-tooth disregistry, which a b/4 grid resolves poorly:
+        # Powell's line searches wander for minutes along it)
+        c['set']['cdiffelastic'] = False
     meth = draw(_method)
     if meth == 'Powell':
         opt = {'maxiter': draw(st.integers(1, 2)), 'maxfev': 600}
